@@ -27,11 +27,11 @@ Proof. exact same_outcome_spec. Qed.
 Print Assumptions same_outcome_meaning.
 
 (* the value-level reference accepts exactly the calls C12's transcription of ceval.c accepts (with or without `/`) *)
-Theorem py_bind_accepts_iff_cpython_bind_upto5 : forall ps c,
-  In ps (sigs_with true 5 ++ sigs_with false 5) -> In c (calls 5) ->
+Theorem py_bind_accepts_iff_cpython_bind_upto4 : forall ps c,
+  In ps (sigs_with true 4 ++ sigs_with false 4) -> In c (calls 4) ->
   (py_bind ps c <> None <-> cpython_bind (map to_formal ps) c = BindOk).
-Proof. exact ArgParseProofs.py_bind_accepts_iff_cpython_bind_upto5. Qed.
-Print Assumptions py_bind_accepts_iff_cpython_bind_upto5.
+Proof. exact ArgParseProofs.py_bind_accepts_iff_cpython_bind_upto4. Qed.
+Print Assumptions py_bind_accepts_iff_cpython_bind_upto4.
 
 (* with positional-only parameters the statement is REFUTED by the faithful model (finding
    wrapper-ignores-positional-only; both witnesses are replayed on the compiled code by the harness) *)
@@ -50,5 +50,5 @@ Example argparse_example :
                 (mkCall 3 [99; 4])
   = Some (mkBound [(1, Some (SPos 0)); (2, Some (SPos 1)); (4, Some (SKw 4))] [2] [99]).
 Proof. vm_compute. reflexivity. Qed.
-Example argparse_domain_nonempty : length (sigs_with false 5) = 199 /\ length (sigs_with true 4) = 228 /\ length (calls 5) = 516.
+Example argparse_domain_nonempty : length (sigs_with false 5) = 459 /\ length (sigs_with true 4) = 228 /\ length (calls 5) = 1099.
 Proof. vm_compute. auto. Qed.
